@@ -56,6 +56,13 @@ def windows(aa: str, lim: Limits):
     if len(aa) == 0:
         return
     mode = getattr(lim, 'mixed', False)
+    if mode == 'anycut':
+        # diagnostic regime: every residue boundary may be a peptide end (is the sequence present in the protein at all?)
+        n = len(aa)
+        for i in range(n):
+            for j in range(i + lim.min_length, min(n, i + lim.max_length) + 1):
+                yield i, j
+        return
     if mode and rules.has_context(lim.rule, lim.exception):
         # attribution regimes for the known finding "cleavage context is evaluated per graph node"
         loose = set(rules.loose_sites(aa, lim.rule)) | set(rules.cleave_sites(aa, lim.rule, None))
